@@ -21,10 +21,37 @@ DEFAULT_UPSTREAM = "m_upstream"
 
 # Null returns that are not latches although they are decided from state: (function, configuration condition, value) -> reason
 R1_EXEMPT_PATHS = {
-    ("op_tine::next", "m_branch_id != 0", True):
+    # (function, configuration field): paths that are only feasible when the field is non-zero
+    ("op_tine::next", "m_branch_id"):
         "a tine that is not the first branch never pulls: when all shared copies are consumed it reports the current input as "
         "done, the merge wraps around to the first branch and that one pulls (rule R6); nothing is remembered",
 }
+
+
+def _path_needs_nonzero(fq, assign, cond_asts):
+    """does some configuration condition taken on this path hold only when an exempt field is non-zero"""
+    from r_cli import eval_with
+    for (fn, fld), _ in R1_EXEMPT_PATHS.items():
+        if fn != fq:
+            continue
+        for key, val in assign:
+            ast = cond_asts.get(key)
+            if ast is None or not any(y.get("k") == "mem" and y.get("n") == fld for y in walk_nolambda(ast)):
+                continue
+
+            def subst(e, v):
+                if isinstance(e, dict):
+                    if e.get("k") == "mem" and e.get("n") == fld and "fid" not in e:
+                        return {"k": "int", "v": v}
+                    return {k: subst(x, v) for k, x in e.items()}
+                if isinstance(e, list):
+                    return [subst(x, v) for x in e]
+                return e
+            v0 = eval_with(subst(ast, 0), -1, 0)
+            v1 = eval_with(subst(ast, 1), -1, 0)
+            if v0 is not None and v1 is not None and bool(v0) != bool(val) and bool(v1) == bool(val):
+                return True
+    return False
 
 
 def state_types(prog):
@@ -215,6 +242,7 @@ def r1(prog):
         npulls = sum(1 for n in g.nodes if node_has_pull(prog, cls, n))
         null_rets = [n for n in g.nodes if n.kind == "ret" and is_null_stack_expr(n.ast)]
         # search: entry -> null return avoiding pull nodes
+        cond_asts = {}
         start = (g.entry.id, frozenset(), False)
         seen = {start}
         stack = [(start, [])]
@@ -227,7 +255,7 @@ def r1(prog):
                 continue
             if n.kind == "ret":
                 if is_null_stack_expr(n.ast):
-                    if any((f["q"], k, v) in R1_EXEMPT_PATHS for k, v in assign):
+                    if _path_needs_nonzero(f["q"], assign, cond_asts):
                         config_only += 1
                         continue
                     if sflag:
@@ -239,6 +267,8 @@ def r1(prog):
             reads = False
             if n.kind in ("cond", "switch"):
                 ckey = ac.config_key(n.ast)
+                if ckey is not None:
+                    cond_asts[ckey] = n.ast
                 reads = ac.reads_state(n.ast) if ckey is None else False
             for t, lab in n.succs:
                 a2, s2 = assign, sflag
